@@ -671,7 +671,8 @@ def decide_case(case, opts):
                 cand = {"label": "plain run at the explored point", "kind": "value", "point": _clean(pr.model),
                         "detail": "symbolic and plain run diverge (%s); the plain run is judged by the oracle" % why[:160]}
                 try:
-                    rep = _replay(case, cand, uses_rng) if pr.outcome is not None and pr.outcome.vjp is None else (False, "")
+                    # (also when the symbolic run itself raised, e.g. on a NumPy function the shim does not know)
+                    rep = _replay(case, cand, uses_rng) if pr.outcome is None or pr.outcome.vjp is None else (False, "")
                 except Exception as e:  # noqa: BLE001
                     rep = (False, "replay failed: %r" % (e,))
                 if rep[0]:
